@@ -96,6 +96,14 @@ func init() {
 				emitOp("splitfiles", []string{pick([]string{".go", ".s", ".o"})}, append(v, pick([][]string{{"a.go", "b.go"}, {"x.s"}, {}, {"-p", "a.go"}})...))
 			case r < 93:
 				emitOp("trimpath", []string{"/tmp/garble-shared123"}, append(v, pick([][]string{{"-trimpath=/a=>b"}, {"-trimpath", "/x"}, {}, {"-trimpath"}})...))
+			case r < 96:
+				w := append([]string{}, v...)
+				if rnd.IntN(4) != 0 {
+					at := rnd.IntN(len(w) + 1)
+					ins := pick([][]string{{"-C", "some/dir"}, {"-C=dir"}, {"--C", "d"}, {"--C=/abs/dir"}, {"-C"}})
+					w = append(w[:at:at], append(ins, w[at:]...)...)
+				}
+				emitOp("chdirsplit", nil, w)
 			default:
 				t := randFlagTok()[0]
 				if rnd.IntN(3) == 0 {
